@@ -1,7 +1,14 @@
 #!/bin/sh
-# Build the framework from files on disk only (offline): Lean library (models, lemmas, property
-# theorems), the native driver, and the rebuilt _tau_leap extension of the tree under test.
+# Build the framework from files on disk only (offline): regenerate the translator-produced Lean files from the
+# tree under test, build the Lean library (models, lemmas, property theorems) and the native driver, and rebuild
+# the _tau_leap extension of the tree under test.
 set -e
 cd "$(dirname "$0")"
+/venv/bin/python - <<'PY'
+from harness import bootstrap, translate_kernels, translate_wrappers, translate_canary
+for t in (translate_kernels, translate_wrappers, translate_canary):
+    r = t.regenerate(bootstrap.REPO)
+    print("generated", r.get("path"), "changed" if r.get("changed") else "unchanged", "refused:", len(r.get("refused", [])))
+PY
 (cd lean && lake build 2>&1 | tail -5)
 /venv/bin/python -c "from harness import bootstrap; bootstrap.init(); print('pygom from', bootstrap.REPO)"
